@@ -364,7 +364,7 @@ def discharge(ob: Obl, ctx, ax, hyps, goal, short=False, heavy=()) -> dict:
                     r, backend = r2, backend2
                 else:
                     # last attempt with a generous budget (verdicts must not flip when the machine is busy)
-                    s3 = _solver(ctx, ax, hy2, [ng], seed=3, timeout=6 * TIMEOUT_MS)
+                    s3 = _solver(ctx, ax, hy2, [ng], seed=3, timeout=3 * TIMEOUT_MS)
                     r = s3.check()
                     backend = "z3-5.1(api,retry2)"
                     if r != z3.unknown:
